@@ -28,17 +28,59 @@ inline bool ws_only(const std::string& s)
 	return true;
 }
 
-// [A-Za-z_][A-Za-z0-9_.-]*
+// strict UTF-8 decoder (no overlongs, no surrogates, <= U+10FFFF); returns false on malformed input
+inline bool utf8_next(const std::string& s, size_t& i, unsigned& cp)
+{
+	unsigned char c = s[i];
+	int n = c < 0x80 ? 0 : (c & 0xe0) == 0xc0 ? 1 : (c & 0xf0) == 0xe0 ? 2 : (c & 0xf8) == 0xf0 ? 3 : -1;
+	if (n < 0)
+		return false;
+	static const unsigned minv[] = {0, 0x80, 0x800, 0x10000};
+	cp = n == 0 ? c : n == 1 ? c & 0x1f : n == 2 ? c & 0x0f : c & 0x07;
+	for (int k = 1; k <= n; k++) {
+		if (i + k >= s.size())
+			return false;
+		unsigned char d = s[i + k];
+		if ((d & 0xc0) != 0x80)
+			return false;
+		cp = (cp << 6) | (d & 0x3f);
+	}
+	if (cp < minv[n] || cp > 0x10ffff || (cp >= 0xd800 && cp <= 0xdfff))
+		return false;
+	i += n + 1;
+	return true;
+}
+
+// XML 1.0 (5th ed.) production [4] NameStartChar
+inline bool xml_name_start(unsigned c)
+{
+	return c == ':' || (c >= 'A' && c <= 'Z') || c == '_' || (c >= 'a' && c <= 'z') || (c >= 0xC0 && c <= 0xD6) || (c >= 0xD8 && c <= 0xF6) ||
+	       (c >= 0xF8 && c <= 0x2FF) || (c >= 0x370 && c <= 0x37D) || (c >= 0x37F && c <= 0x1FFF) || (c >= 0x200C && c <= 0x200D) ||
+	       (c >= 0x2070 && c <= 0x218F) || (c >= 0x2C00 && c <= 0x2FEF) || (c >= 0x3001 && c <= 0xD7FF) || (c >= 0xF900 && c <= 0xFDCF) ||
+	       (c >= 0xFDF0 && c <= 0xFFFD) || (c >= 0x10000 && c <= 0xEFFFF);
+}
+// production [4a] NameChar
+inline bool xml_name_char(unsigned c)
+{
+	return xml_name_start(c) || c == '-' || c == '.' || (c >= '0' && c <= '9') || c == 0xB7 || (c >= 0x300 && c <= 0x36F) || (c >= 0x203F && c <= 0x2040);
+}
+
+// "well-formed tag / attribute name" = XML 1.0 production [5] Name over UTF-8:  NameStartChar NameChar*
+// (ASCII part: [A-Za-z_:][A-Za-z0-9_:.-]*).  Every such name is accepted by the unchanged decoder, whose own test is wider
+// (any byte >= 0x80 and DEL anywhere); names outside the production are not in the "must round-trip" domain.
 inline bool name_ok(const std::string& s)
 {
 	if (s.empty())
 		return false;
-	for (size_t i = 0; i < s.size(); i++) {
-		unsigned char c = s[i];
-		bool first = (c >= 'A' && c <= 'Z') || (c >= 'a' && c <= 'z') || c == '_';
-		bool rest = first || (c >= '0' && c <= '9') || c == '.' || c == '-';
-		if (i == 0 ? !first : !rest)
+	size_t i = 0;
+	bool first = true;
+	while (i < s.size()) {
+		unsigned cp;
+		if (!utf8_next(s, i, cp))
 			return false;
+		if (first ? !xml_name_start(cp) : !xml_name_char(cp))
+			return false;
+		first = false;
 	}
 	return true;
 }
@@ -236,7 +278,7 @@ inline size_t count_elements(const Node& n)
 // Part A oracle for one byte string (X = DOM handle with static decode/encode, S = its string type):
 // decode terminates (the caller's process survives, ASan silent) and the result is either the null element (!x) or a
 // tree: root.parent() is the null handle, every child's parent() is its container, node count <= input length.
-// When all tag/attribute names of that tree are of the form [A-Za-z_][A-Za-z0-9_.-]* the second clause of the property
+// When all tag/attribute names of that tree are XML 1.0 Names (name_ok) the second clause of the property
 // applies to it as well: decode(encode(tree, compact)) equals it up to text merging / whitespace-only text, and the
 // same for the indented output when text occurs only as sole child.
 // The input lives in a heap String that is destroyed BEFORE the result is inspected (the tree must own its data).
